@@ -154,10 +154,187 @@ partial def JV.ofLean : Lean.Json → JV
   | .arr xs => .arr (xs.toList.map JV.ofLean)
   | .obj kvs => .obj (jobjOfList (kvs.toList.map (fun (k, v) => (k, JV.ofLean v))))
 
-/-- parse JSON text into a normalised jsonb value (22P02 on malformed input) -/
-def JV.parse (s : String) : Except String JV :=
+/-- the previous parser (through `Lean.Json.parse`, whose implementation is `partial` and therefore
+    opaque to the kernel); kept for differential tests of `JV.parse` only -/
+def JV.parseViaLean (s : String) : Except String JV :=
   match Lean.Json.parse s with
   | .ok j => .ok (JV.ofLean j)
+  | .error e => .error s!"invalid input syntax for type json: {e}"
+
+/-! ### JSON parser (RFC 8259) over `List Char`, structurally recursive on fuel so that jsonb
+    literals evaluate inside the kernel. Numbers are normalised like `JV.ofLean`: a value without
+    fractional part after applying the exponent is an integer, anything else keeps its decimal
+    text. Object keys: last one wins, stored in jsonb order (`jobjOfList`). -/
+
+def jsonWs (c : Char) : Bool := c == ' ' || c == '\t' || c == '\n' || c == '\r'
+
+def skipJsonWs : List Char → List Char
+  | [] => []
+  | c :: cs => if jsonWs c then skipJsonWs cs else c :: cs
+
+def hexVal (c : Char) : Option Nat :=
+  if '0' ≤ c && c ≤ '9' then some (c.toNat - 48)
+  else if 'a' ≤ c && c ≤ 'f' then some (c.toNat - 87)
+  else if 'A' ≤ c && c ≤ 'F' then some (c.toNat - 55)
+  else none
+
+def hex4 (a b c d : Char) : Option Nat := do
+  let x ← hexVal a
+  let y ← hexVal b
+  let z ← hexVal c
+  let w ← hexVal d
+  pure (4096 * x + 256 * y + 16 * z + w)
+
+/-- the body of a string after the opening quote; `acc` holds the characters read so far, reversed -/
+def parseJsonStr : Nat → List Char → List Char → Except String (String × List Char)
+  | 0, _, _ => .error "string too long"
+  | _ + 1, [], _ => .error "unterminated string"
+  | _ + 1, '"' :: rest, acc => .ok (String.ofList acc.reverse, rest)
+  | n + 1, '\\' :: rest, acc =>
+    match rest with
+    | '"' :: r => parseJsonStr n r ('"' :: acc)
+    | '\\' :: r => parseJsonStr n r ('\\' :: acc)
+    | '/' :: r => parseJsonStr n r ('/' :: acc)
+    | 'b' :: r => parseJsonStr n r ('\x08' :: acc)
+    | 'f' :: r => parseJsonStr n r ('\x0c' :: acc)
+    | 'n' :: r => parseJsonStr n r ('\n' :: acc)
+    | 'r' :: r => parseJsonStr n r ('\r' :: acc)
+    | 't' :: r => parseJsonStr n r ('\t' :: acc)
+    | 'u' :: a :: b :: c :: d :: r =>
+      match hex4 a b c d with
+      | none => .error "invalid \\u escape"
+      | some hi =>
+        if 0xD800 ≤ hi && hi ≤ 0xDBFF then
+          -- a surrogate pair encodes one code point
+          match r with
+          | '\\' :: 'u' :: a' :: b' :: c' :: d' :: r' =>
+            match hex4 a' b' c' d' with
+            | some lo =>
+              if 0xDC00 ≤ lo && lo ≤ 0xDFFF then
+                parseJsonStr n r' (Char.ofNat (0x10000 + (hi - 0xD800) * 1024 + (lo - 0xDC00)) :: acc)
+              else .error "invalid surrogate pair"
+            | none => .error "invalid \\u escape"
+          | _ => .error "invalid surrogate pair"
+        else if hi == 0 then .error "\\u0000 cannot be converted to text"
+        else parseJsonStr n r (Char.ofNat hi :: acc)
+    | _ => .error "invalid escape sequence"
+  | n + 1, c :: rest, acc =>
+    if c.toNat < 0x20 then .error "control character in string" else parseJsonStr n rest (c :: acc)
+
+def takeDigits : List Char → List Char × List Char
+  | [] => ([], [])
+  | c :: cs => if c.isDigit then let (d, r) := takeDigits cs; (c :: d, r) else ([], c :: cs)
+
+def digitsVal (ds : List Char) : Nat := ds.foldl (fun acc c => acc * 10 + (c.toNat - 48)) 0
+
+/-- a number starting at the head of the input -/
+def parseJsonNum (cs : List Char) : Except String (JV × List Char) :=
+  let (neg, cs) := match cs with | '-' :: r => (true, r) | _ => (false, cs)
+  let (ip, r1) := takeDigits cs
+  if ip.isEmpty then .error "invalid number" else
+  if ip.length > 1 && ip.head? == some '0' then .error "invalid number (leading zero)" else
+  let fracRes : Except String (List Char × List Char) := match r1 with
+    | '.' :: r =>
+      let (fp, r') := takeDigits r
+      if fp.isEmpty then .error "invalid number" else .ok (fp, r')
+    | _ => .ok ([], r1)
+  match fracRes with
+  | .error e => .error e
+  | .ok (fp, r2) =>
+  let expRes : Except String (Int × List Char) := match r2 with
+    | 'e' :: r | 'E' :: r =>
+      let (eneg, r) := match r with | '-' :: r' => (true, r') | '+' :: r' => (false, r') | _ => (false, r)
+      let (ed, r') := takeDigits r
+      if ed.isEmpty then .error "invalid number" else
+      if ed.length > 6 then .error "exponent too large" else
+      .ok ((if eneg then - (digitsVal ed : Int) else (digitsVal ed : Int)), r')
+    | _ => .ok (0, r2)
+  match expRes with
+  | .error e => .error e
+  | .ok (ex, r3) =>
+    let m : Int := if neg then - (digitsVal (ip ++ fp) : Int) else (digitsVal (ip ++ fp) : Int)
+    -- value = m * 10^(ex - |fp|)
+    let e : Int := (fp.length : Int) - ex
+    if e ≤ 0 then .ok (.num (m * (10 : Int) ^ (-e).toNat), r3)
+    else
+      let p : Int := (10 : Int) ^ e.toNat
+      if m % p == 0 then .ok (.num (m / p), r3) else .ok (.dec (decText m e.toNat), r3)
+
+mutual
+def parseJsonValue : Nat → List Char → Except String (JV × List Char)
+  | 0, _ => .error "nesting too deep"
+  | n + 1, cs =>
+    match skipJsonWs cs with
+    | [] => .error "unexpected end of input"
+    | 'n' :: 'u' :: 'l' :: 'l' :: r => .ok (.null, r)
+    | 't' :: 'r' :: 'u' :: 'e' :: r => .ok (.bool true, r)
+    | 'f' :: 'a' :: 'l' :: 's' :: 'e' :: r => .ok (.bool false, r)
+    | '"' :: r =>
+      match parseJsonStr (r.length + 1) r [] with
+      | .ok (s, r') => .ok (.str s, r')
+      | .error e => .error e
+    | '[' :: r =>
+      match skipJsonWs r with
+      | ']' :: r' => .ok (.arr [], r')
+      | r' =>
+        match parseJsonElems n r' with
+        | .ok (xs, r'') => .ok (.arr xs, r'')
+        | .error e => .error e
+    | '{' :: r =>
+      match skipJsonWs r with
+      | '}' :: r' => .ok (.obj [], r')
+      | r' =>
+        match parseJsonMembers n r' with
+        | .ok (kvs, r'') => .ok (.obj (jobjOfList kvs), r'')
+        | .error e => .error e
+    | c :: r =>
+      if c == '-' || c.isDigit then parseJsonNum (c :: r)
+      else .error s!"unexpected character '{c}'"
+def parseJsonElems : Nat → List Char → Except String (List JV × List Char)
+  | 0, _ => .error "nesting too deep"
+  | n + 1, cs =>
+    match parseJsonValue n cs with
+    | .error e => .error e
+    | .ok (v, r) =>
+      match skipJsonWs r with
+      | ',' :: r' =>
+        match parseJsonElems n r' with
+        | .ok (vs, r'') => .ok (v :: vs, r'')
+        | .error e => .error e
+      | ']' :: r' => .ok ([v], r')
+      | _ => .error "expected ',' or ']'"
+def parseJsonMembers : Nat → List Char → Except String (List (String × JV) × List Char)
+  | 0, _ => .error "nesting too deep"
+  | n + 1, cs =>
+    match skipJsonWs cs with
+    | '"' :: r =>
+      match parseJsonStr (r.length + 1) r [] with
+      | .error e => .error e
+      | .ok (k, r1) =>
+        match skipJsonWs r1 with
+        | ':' :: r2 =>
+          match parseJsonValue n r2 with
+          | .error e => .error e
+          | .ok (v, r3) =>
+            match skipJsonWs r3 with
+            | ',' :: r4 =>
+              match parseJsonMembers n r4 with
+              | .ok (kvs, r5) => .ok ((k, v) :: kvs, r5)
+              | .error e => .error e
+            | '}' :: r4 => .ok ([(k, v)], r4)
+            | _ => .error "expected ',' or '}'"
+        | _ => .error "expected ':'"
+    | _ => .error "expected string"
+end
+
+/-- parse JSON text into a normalised jsonb value (22P02 on malformed input) -/
+def JV.parse (s : String) : Except String JV :=
+  let cs := s.toList
+  match parseJsonValue (2 * cs.length + 2) cs with
+  | .ok (v, rest) =>
+    match skipJsonWs rest with
+    | [] => .ok v
+    | _ => .error "invalid input syntax for type json: trailing characters"
   | .error e => .error s!"invalid input syntax for type json: {e}"
 
 partial def JV.toLean : JV → Lean.Json
@@ -270,13 +447,6 @@ def tsFormat (us : Int) (sep : String) : String :=
   yS ++ "-" ++ pad m.toNat 2 ++ "-" ++ pad d.toNat 2 ++ sep ++
     pad hh 2 ++ ":" ++ pad mm 2 ++ ":" ++ pad ss 2 ++ fracS
 
-def digitsVal (cs : List Char) : Nat :=
-  cs.foldl (fun acc c => acc * 10 + (c.toNat - 48)) 0
-
-def takeDigits : List Char → List Char × List Char
-  | [] => ([], [])
-  | c :: cs => if c.isDigit then let (a, b) := takeDigits cs; (c :: a, b) else ([], c :: cs)
-
 /-- Parse timestamp text as `timestamp without time zone` input does: a time
     zone suffix (`Z`, `+hh[:mm]`) is accepted and IGNORED (documentation 8.5.1.3:
     "In a literal that has been determined to be timestamp without time zone,
@@ -327,12 +497,6 @@ def tsParse (s : String) : Except String Int := do
 
 def hexOfBytes (b : ByteArray) : String :=
   b.foldl (fun acc x => (acc.push (hexDigit (x.toNat / 16))).push (hexDigit (x.toNat % 16))) ""
-
-def hexVal (c : Char) : Option Nat :=
-  if c.isDigit then some (c.toNat - 48)
-  else if 'a' ≤ c && c ≤ 'f' then some (c.toNat - 87)
-  else if 'A' ≤ c && c ≤ 'F' then some (c.toNat - 55)
-  else none
 
 def bytesOfHex (cs : List Char) : Option ByteArray :=
   let rec go : List Char → ByteArray → Option ByteArray
